@@ -5,10 +5,14 @@
    - layout, first half (token_shapes_ignore_positions, layout_before_a_token_is_ignored, leading_layout_is_ignored): the
      sequence of token types and literals is a function of the remaining characters only, and any run of whitespace and
      complete comments in front of the point where the lexer starts a token changes nothing.
-   PARTIAL: that inserting layout directly after a token does not change the tokens before it ("the scanners stop at
-   whitespace") is not proved; it is decided per run by the LEXPAIR correspondence (lexeme sequences in two layouts). *)
-From Coq Require Import List ZArith Bool.
-From Pory Require Import Lexer LexInv LexLayout LexPos Tables TablesOK.
+   - layout, second half (layout_between_tokens): at every point the lexer reaches between two tokens, inserting a gap that
+     begins with a whitespace character changes nothing, neither for the tokens before that point nor for those after.
+   Not covered by a theorem: gaps that begin with a comment directly after a token (e.g. '/' followed by '//' would fuse), the
+   end of the file, and the claim about the compiled output (a corollary through the parser, which reads types and
+   literals only: decided by the correspondence under PROJ text and the `layout` oracle). *)
+From Coq Require Import List String ZArith NArith Bool.
+Open Scope string_scope. Open Scope list_scope.
+From Pory Require Import Lexer LexInv LexLayout LexPos LexBetween Tables TablesOK.
 Import ListNotations.
 Local Open Scope Z_scope.
 
@@ -60,3 +64,20 @@ Theorem lexer_progress :
     (List.length (chs l') < List.length (chs l))%nat.
 Proof. exact next_token_progress. Qed.
 Print Assumptions lexer_progress.
+
+
+(* layout between tokens: if the lexer, run on p ++ r, stands after k tokens exactly in front of r, then a gap that begins
+   with a whitespace character may be inserted there without changing any token type or literal *)
+Theorem layout_between_tokens :
+  forall is_letter_hi is_digit_hi is_space_hi (p r g : list N) (k : nat),
+  r <> [] -> gap g -> (exists b g0, g = b :: g0 /\ is_ws b = true) ->
+  reaches is_letter_hi is_digit_hi is_space_hi r k (init (p ++ r)) ->
+  map shape (lex is_letter_hi is_digit_hi is_space_hi (p ++ g ++ r)) = map shape (lex is_letter_hi is_digit_hi is_space_hi (p ++ r)).
+Proof. exact LexBetween.layout_between_tokens. Qed.
+Print Assumptions layout_between_tokens.
+
+(* non-vacuity: in "ab(c" the lexer stands in front of "(c" after one token *)
+Theorem between_premise_example :
+  reaches (fun _ => false) (fun _ => false) (fun _ => false) (t "(c") 1 (init (t "ab" ++ t "(c")).
+Proof. exact reaches_example. Qed.
+Print Assumptions between_premise_example.
